@@ -15,7 +15,7 @@ ID = 'C12'
 LEVEL = 'exploration'
 EXHAUSTIVE = True
 EXHAUSTIVE_SCOPE = 'every (pipe,data,model) with product <= bound and every local rank is instantiated; cost dictionaries are drawn per family'
-RULE = ('exhaustive over (pipe,data,model) with product <= 24 (thorough <= 96), every local rank, cost families (uniform, ties, zeros, random, geometric, ragged = layers with different factor sets; 1..2*stage+1 layers); '
+RULE = ('exhaustive over (pipe,data,model) with product <= 24 (thorough <= 96), every local rank, cost families (uniform, ties, zeros, random, geometric, ragged = layers with different factor sets, near_ties = n**3-sized integer costs differing by less than single precision resolves; 1..2*stage+1 layers); '
         'non-trivial: world>1 and (model>1 or data>1); distinct = (pp,dp,mp,family); digests compared across PYTHONHASHSEED 0/1/4242')
 ASSUMPTIONS = ['the DeepSpeed topology is the stand-in in stubs/deepspeed (axes pipe,data,model; row-major)',
                'group handles are opaque recorder tuples']
@@ -31,6 +31,16 @@ def make_work(rng, fam, stage_size):
         return {f'l{i}': {'A': rng.choice([1, 2]), 'G': rng.choice([1, 2])} for i in range(L)}
     if fam == 'zeros':
         return {f'l{i}': {'A': rng.choice([0, 0, 1]), 'G': 0} for i in range(L)}
+    if fam == 'near_ties':
+        # realistic n**3 costs (1e9..1e12, exact as integers) that differ by far less than single precision resolves: every
+        # rank of the stage first gets one of the big layers, and the next layer must go to the one that is lighter by a hair
+        X = rng.choice([511, 1025, 4097, 8193]) ** 3 + rng.randrange(1000)
+        n_big = min(max(2, stage_size), 12)
+        deltas = sorted(rng.sample(range(1, 40000), n_big), reverse=True)
+        out = {f'big{i}': {'A': X + d, 'G': rng.choice([0, 0, 7])} for i, d in enumerate(deltas)}
+        for j in range(rng.randint(1, 4)):
+            out[f'small{j}'] = {'A': rng.choice([129, 257, 1025]) ** 3, 'G': rng.choice([64, 129]) ** 3}
+        return out
     if fam == 'ragged':
         # layers with different numbers of factors (only A, only G, both, or a third one): the load of a layer is the sum of ITS factors
         out = {}
@@ -132,7 +142,7 @@ def check_topology(pp, dp, mp, fam, rng, res):
     res.sample(dict(case, world=W, layers_per_stage=[len(w) for w in works], new_group_calls=calls[0][:4]))
 
 
-FAMS = ['uniform', 'ties', 'zeros', 'geometric', 'random', 'ragged']
+FAMS = ['uniform', 'ties', 'zeros', 'geometric', 'random', 'ragged', 'near_ties']
 
 
 def topologies(limit):
